@@ -5,6 +5,7 @@ import (
 	"go/ast"
 	"go/token"
 	"go/types"
+	"path/filepath"
 	"strings"
 
 	"golang.org/x/tools/go/packages"
@@ -1076,4 +1077,178 @@ func (e *Engine) SweepStyleWriters(prop string) {
 		}
 	}
 	e.notes = appendUnique(e.notes, fmt.Sprintf("style writers: %d functions of runtime/styleattribute.go take the builder; each is under contract or one of the 5 that only dispatch / handle values outside the property", n))
+}
+
+// SweepExpressionList (C16): SourceMap.Expressions is what HasChanged compares to decide whether an edit needs a
+// recompilation: it has to hold the text of every Go expression of the generated code, as written. Outside
+// SourceMap.Add the list may only grow by the Value of an expression ( x.Expressions = append(x.Expressions, e.Value) );
+// every other write to it - an element assignment, an append of something else, a reslice - is a failed obligation.
+func (e *Engine) SweepExpressionList(prop string) {
+	n := 0
+	for _, path := range []string{modulePath + "/generator", modulePath + "/parser/v2"} {
+		pkg := e.pkgs[path]
+		if pkg == nil {
+			continue
+		}
+		isList := func(x ast.Expr) bool {
+			sel, ok := ast.Unparen(x).(*ast.SelectorExpr)
+			if !ok || sel.Sel.Name != "Expressions" {
+				return false
+			}
+			t := pkg.TypesInfo.TypeOf(sel.X)
+			if t == nil {
+				return false
+			}
+			if p, ok := t.(*types.Pointer); ok {
+				t = p.Elem()
+			}
+			return types.TypeString(t, nil) == modulePath+"/parser/v2.SourceMap"
+		}
+		for _, file := range pkg.Syntax {
+			fname := pkg.Fset.Position(file.Pos()).Filename
+			if strings.HasSuffix(fname, "_test.go") {
+				continue
+			}
+			for _, d := range file.Decls {
+				fd, ok := d.(*ast.FuncDecl)
+				if !ok || fd.Body == nil {
+					continue
+				}
+				fname := fd.Name.Name
+				if fd.Recv != nil && len(fd.Recv.List) > 0 {
+					fname = recvTypeName(fd.Recv.List[0].Type) + "." + fname
+				}
+				if path == modulePath+"/parser/v2" && fname == "SourceMap.Add" {
+					continue // under contract
+				}
+				k := 0
+				ast.Inspect(fd.Body, func(x ast.Node) bool {
+					as, ok := x.(*ast.AssignStmt)
+					if !ok {
+						return true
+					}
+					for i, l := range as.Lhs {
+						target := l
+						if ix, ok := ast.Unparen(l).(*ast.IndexExpr); ok {
+							target = ix.X
+						}
+						if !isList(target) {
+							continue
+						}
+						k++
+						n++
+						good := false
+						if target == l && len(as.Rhs) == len(as.Lhs) {
+							if call, ok := ast.Unparen(as.Rhs[i]).(*ast.CallExpr); ok && exprString(call.Fun) == "append" && len(call.Args) == 2 && !call.Ellipsis.IsValid() && exprString(call.Args[0]) == exprString(l) {
+								if sel, ok := ast.Unparen(call.Args[1]).(*ast.SelectorExpr); ok && sel.Sel.Name == "Value" {
+									if t := pkg.TypesInfo.TypeOf(sel.X); t != nil && strings.HasSuffix(types.TypeString(t, nil), "/parser/v2.Expression") {
+										good = true
+									}
+								}
+							}
+						}
+						p := pkg.Fset.Position(as.Pos())
+						o := &Obligation{Name: fmt.Sprintf("%s.%s#exprlist.%d", filepath.Base(path), fname, k), Kind: "site", Func: fname, Goal: True, Verdict: "unsat", Solver: "engine", Pos: fmt.Sprintf("%s:%d", p.Filename, p.Line),
+							Note: "the expression list of the source map grows by the text of an expression"}
+						if !good {
+							o.Goal, o.Verdict = False, "sat"
+							o.Note = "the expression list that HasChanged compares is written outside SourceMap.Add by something other than appending an expression's text: an edit of that expression may then go unnoticed (no recompilation)"
+						}
+						e.addObl(o)
+					}
+					return true
+				})
+			}
+		}
+	}
+	e.notes = appendUnique(e.notes, fmt.Sprintf("expression list: %d writes to SourceMap.Expressions outside SourceMap.Add, each an append of an expression's text", n))
+}
+
+// SweepContextValueMaps (C14): the registries of a render (contextValue.ss, contextValue.onceHandles) belong to one
+// context value. They may only ever be given a map made on the spot (a composite literal or make) - assigning a map
+// that lives elsewhere (a field of a middleware, a package variable, a parameter) shares one render's registry with
+// other renders: their output then depends on each other and concurrent renders write one map.
+func (e *Engine) SweepContextValueMaps(prop string) {
+	pkg := e.pkgs[modulePath]
+	if pkg == nil {
+		return
+	}
+	n := 0
+	isRegistry := func(x ast.Expr) (string, bool) {
+		sel, ok := ast.Unparen(x).(*ast.SelectorExpr)
+		if !ok || (sel.Sel.Name != "ss" && sel.Sel.Name != "onceHandles") {
+			return "", false
+		}
+		t := pkg.TypesInfo.TypeOf(sel.X)
+		if t == nil {
+			return "", false
+		}
+		if p, ok := t.(*types.Pointer); ok {
+			t = p.Elem()
+		}
+		return sel.Sel.Name, types.TypeString(t, nil) == modulePath+".contextValue"
+	}
+	fresh := func(x ast.Expr) bool {
+		switch y := ast.Unparen(x).(type) {
+		case *ast.CompositeLit:
+			return true
+		case *ast.CallExpr:
+			return exprString(y.Fun) == "make"
+		case *ast.Ident:
+			return y.Name == "nil"
+		}
+		return false
+	}
+	for _, file := range pkg.Syntax {
+		if strings.HasSuffix(pkg.Fset.Position(file.Pos()).Filename, "_test.go") {
+			continue
+		}
+		for _, d := range file.Decls {
+			fd, ok := d.(*ast.FuncDecl)
+			if !ok || fd.Body == nil {
+				continue
+			}
+			fname := fd.Name.Name
+			if fd.Recv != nil && len(fd.Recv.List) > 0 {
+				fname = recvTypeName(fd.Recv.List[0].Type) + "." + fname
+			}
+			k := 0
+			report := func(pos token.Pos, field string, rhs ast.Expr) {
+				k++
+				n++
+				p := pkg.Fset.Position(pos)
+				o := &Obligation{Name: fmt.Sprintf("templ.%s#ctxmap.%d", fname, k), Kind: "confine", Func: "templ." + fname, Goal: True, Verdict: "unsat", Solver: "engine", Pos: fmt.Sprintf("%s:%d", p.Filename, p.Line),
+					Note: "the registry " + field + " of a context value is given a map made on the spot"}
+				if !fresh(rhs) {
+					o.Goal, o.Verdict = False, "sat"
+					o.Note = "the registry " + field + " of a context value is given the map " + exprText(rhs) + ", which lives outside this render: renders that receive it share one registry (their output depends on each other, and concurrent renders write one map)"
+				}
+				e.addObl(o)
+			}
+			ast.Inspect(fd.Body, func(x ast.Node) bool {
+				switch y := x.(type) {
+				case *ast.AssignStmt:
+					if len(y.Lhs) == len(y.Rhs) {
+						for i, l := range y.Lhs {
+							if f, ok := isRegistry(l); ok {
+								report(y.Pos(), f, y.Rhs[i])
+							}
+						}
+					}
+				case *ast.CompositeLit:
+					if t := pkg.TypesInfo.TypeOf(y); t != nil && strings.HasSuffix(types.TypeString(t, nil), modulePath+".contextValue") {
+						for _, el := range y.Elts {
+							if kv, ok := el.(*ast.KeyValueExpr); ok {
+								if id, ok := kv.Key.(*ast.Ident); ok && (id.Name == "ss" || id.Name == "onceHandles") {
+									report(kv.Pos(), id.Name, kv.Value)
+								}
+							}
+						}
+					}
+				}
+				return true
+			})
+		}
+	}
+	e.notes = appendUnique(e.notes, fmt.Sprintf("context value registries: %d assignments to contextValue.ss / onceHandles, each of a map made on the spot", n))
 }
